@@ -235,6 +235,13 @@ def rule_parser_table(chk, rid):
         if isinstance(d, ast.Call) and call_name(d) == "dict" and {k.arg for k in d.keywords} >= {"int", "float", "bool"}:
             table = {k.arg: U(k.value) for k in d.keywords}
     if table is None:
+        # the table may live in a module-level constant named by the function
+        for nm in ast.walk(fn):
+            if isinstance(nm, ast.Name) and len(m.assigns.get(nm.id, [])) == 1:
+                d = m.assigns[nm.id][0]
+                if isinstance(d, ast.Call) and call_name(d) == "dict" and {k.arg for k in d.keywords} >= {"int", "float", "bool"}:
+                    table = {k.arg: U(k.value) for k in d.keywords}
+    if table is None:
         raise AnalysisError("argument_parser_from_command_metadata: selection table not found")
     singles = {n: U(v[0]) for n, v in m.assigns.items() if n.endswith("_AP") and len(v) == 1}
     WANT = {"int": ("IntArgumentParser", "int"), "float": ("FloatArgumentParser", "float"), "bool": ("BooleanArgumentParser", "to_bool"),
